@@ -165,9 +165,9 @@ func verifStubImmutableUnset(f *os.File) {
 }
 
 var verifC18 struct {
-	size  int64 // published tree size (symbolic)
-	level int   // tile level of the directory being cleaned
-	witness bool // torchwood layout (entries/…) instead of the Static CT layout
+	size    int64 // published tree size (symbolic)
+	level   int   // tile level of the directory being cleaned
+	witness bool  // torchwood layout (entries/…) instead of the Static CT layout
 }
 
 // verifC18TileIndex independently decodes the tile index from a path below the level directory:
